@@ -150,6 +150,29 @@ def run(ctx):
                        how='lock state at this element is {held}%s' % (
                            ' (function entered with the lock held by all its callers)' if entry_held[n] else ''))
                 i += 1
+    # stores through pointers into the repository (a node taken from the shared list, its fields) need the lock as
+    # well: a node that is linked first and filled afterwards, outside the mutex, is written while other threads read it
+    from engine.dataflow import PtrTaint
+    nst = 0
+    for n, f in sorted(tfuncs.items()):
+        if f.key not in reach or n in once_inits or n in fork_handlers:
+            continue
+        pt = PtrTaint(f, lambda x: any(y.k == 'DeclRefExpr' and y['ref'].get('kind') == 'var' and y['ref'].get('name') in REPO_GLOBALS
+                                       for y in x.walk()), set())
+        for j, stn in enumerate(pt.stores()):
+            l_ = strip(stn.ch[0]) if stn.ch else None
+            # a store INTO a variable that merely holds such a pointer is not a store into the repository
+            if l_ is None or l_.k == 'DeclRefExpr':
+                continue
+            el = C.cfg_elem_of(f, stn)
+            stt = states[n].get(el.id if el is not None else stn.id, set())
+            nst += 1
+            chk.ob('K1', 'repo-node-store[%s#%d]' % (n, j), stt == {'held'}, stn.where(), n,
+                   '%s writes into a node of the shared thread repository while the mutex may not be held (lock state here: '
+                   '%s): another thread walking the list under the lock reads the field at the same time' % (
+                       render(stn)[:60], '/'.join(sorted(stt)) or 'unreachable'),
+                   how='lock state at this store is {held}')
+    chk.count('repo_node_stores', nst)
     # the list helpers are only called from tsrm.c (they carry no locking themselves)
     listtu = prog.tu('src/util/list.c')
     if listtu is not None:
@@ -273,7 +296,10 @@ def run(ctx):
             elif l.k == 'MemberExpr' and l['member'] == 'threadId' and r is not None and r['kind'] == 'var':
                 # the maker merged into the constructor: the id is the constructor's own "current thread" variable
                 from engine.dataflow import def_exprs as _de
-                ds_ = [strip(x) for x in _de(N, common.alias_root(N, r['id']))]
+                root_ = common.alias_root(N, r['id'])
+                if any(p_['id'] == root_ for p_ in N.params):
+                    stored = True       # a helper's parameter that is a plain copy of the maker's own thread-id parameter
+                ds_ = [strip(x) for x in _de(N, root_)]
                 if ds_ and all(x.k == 'CallExpr' and x.get('callee') in ('pthread_self', 'snoopy_tsrm_getCurrentThreadId') for x in ds_):
                     stored = True
     chk.ob('K5', 'record-keyed-by-creator', stored, N.where(), N.name, 'the new record does not store the creating thread id')
